@@ -252,7 +252,7 @@ func randomShape(id string, rng *rand.Rand, size int) (absd.Desc, absd.Cfg) {
 		}
 	}
 	if rng.Intn(4) == 0 {
-		c.Injected = append(c.Injected, absd.KInj{K: "Root", V: []absd.Inj{{Name: "id", Type: "string", Computed: true}}})
+		c.Injected = append(c.Injected, absd.KInj{K: "Root", V: []absd.Inj{{Name: "id", Type: "string", Computed: true, Validators: []string{}, PlanMods: []string{}}}})
 	}
 	_ = fmt.Sprint(id)
 	return d, c
